@@ -652,3 +652,117 @@ def omen_phase(tier, base_seed):
                 "detail": dict(r["problem"][1], ruleset=r["name"], markov_group=r["m"], quit_fraction=r["j_frac"], style=r["style"])},
                 "case": None})
     return out
+
+
+# ---------------------------------------------------------------------------
+# C13 on the shipped rulesets: the scorer's promises against a prefix of the guesser's run
+
+def _scorer_job(name, n_pops, seed):
+    """real guesser (default flags, Markov pre-terminals not expanded) for n_pops pops -> emitted strings with their
+    probabilities and the last probability p_last; real scorer over a sample of those strings and mutations of them.
+    A candidate scored above p_last must already have been emitted, with that probability (below p_last: undecided)."""
+    from .tape import Tape
+    from .checks import endtoend
+    from lib_guesser.priority_queue import PcfgQueue
+    t = Tape(seed=seed)
+    out = {"name": name, "problem": None, "candidates": 0, "decided": 0, "promises_beyond_emitted_sample": 0, "undecided": 0}
+    rec = guesser.LineRecorder()
+    strings = {}
+    with guesser.streams(rec, guesser.Sink()):
+        pcfg = guesser.load(shipped_dir(name), name=name)
+        q = PcfgQueue(pcfg)
+        last = None
+        for _ in range(n_pops):
+            item = q.next()
+            if item is None:
+                break
+            last = item["prob"]
+            if any(x[0] == "M" for x in item["pt"]):
+                continue
+            rec.take()
+            pcfg.create_guesses(item["pt"])
+            for s in guesser.split_lines(rec.take()):
+                strings.setdefault(s, []).append(item["prob"])
+        sc = endtoend.make_scorer(shipped_dir(name), 0)
+    if sc is None or last is None:
+        out["problem"] = ("scorer_cannot_load", {})
+        return out
+    gl = sorted(strings)
+    base = [gl[t.draw(len(gl))] for _ in range(400)]
+    cands = list(base)
+    for _ in range(1200):
+        s = base[t.draw(len(base))]
+        k = t.draw(9)
+        if k == 0:
+            s = s.upper()
+        elif k == 1:
+            s = s.capitalize()
+        elif k == 2:
+            s = s.swapcase()
+        elif k == 3:
+            s = s + t.choice(["1", "12", "2019", "!", "#1", "<3", "123", "7"])
+        elif k == 4:
+            s = t.choice(["1", "!", "qwer", "1qaz", "a"]) + s
+        elif k == 5 and s:
+            i = t.draw(len(s))
+            s = s[:i] + t.choice(["0", "x", "$", "a", "1"]) + s[i + 1:]
+        elif k == 6:
+            s = s + base[t.draw(len(base))]
+        elif k == 7 and len(s) > 1:
+            s = s[:-1]
+        else:
+            s = s[1:] + s[:1]
+        if s and len(s) <= 30:
+            cands.append(s)
+    cands = list(dict.fromkeys(cands))
+    out["candidates"] = len(cands)
+    with guesser.streams():
+        for s in cands:
+            try:
+                pw, cat, p, omen = sc.parse(s)
+            except Exception:
+                import traceback
+                out["problem"] = ("scorer_raised", {"string": s, "exception": traceback.format_exc()[-600:]})
+                return out
+            if cat in ("e", "w") or not p or p <= 0:
+                continue
+            if p <= last * (1 + 1e-9):
+                out["undecided"] += 1
+                continue
+            out["decided"] += 1
+            got = strings.get(s)
+            if not got:
+                if endtoend.unrebuildable(s):
+                    continue
+                out["problem"] = ("scored_string_never_guessed", {"string": s, "probability": p, "category": cat,
+                                                                  "guesser_reached_probability": last, "pops": n_pops})
+                return out
+            if not any(abs(g - p) <= 1e-9 * max(abs(p), abs(g)) for g in got):
+                out["problem"] = ("score_differs_from_guess_probability", {"string": s, "score": p, "guesser": got[:4]})
+                return out
+            if s not in base:
+                out["promises_beyond_emitted_sample"] += 1
+    return out
+
+
+def scorer_phase(tier, base_seed):
+    names = available()
+    out = {"shipped_ruleset_scorer_runs": 0, "shipped_ruleset_candidates": 0, "shipped_ruleset_promises_decided": 0,
+           "shipped_ruleset_promises_on_mutated_strings": 0, "shipped_ruleset_undecided": 0, "violations": []}
+    if not names:
+        return out
+    if tier == "quick":
+        jobs = [(names[base_seed % len(names)], 15000, base_seed * 8111 + 3)]
+    else:
+        jobs = [(names[i % len(names)], 15000 + 20000 * (i // 2), base_seed * 8111 + 3 + i) for i in range(8)]
+    for r in _fan_out(_scorer_job, jobs):
+        out["shipped_ruleset_scorer_runs"] += 1
+        out["shipped_ruleset_candidates"] += r["candidates"]
+        out["shipped_ruleset_promises_decided"] += r["decided"]
+        out["shipped_ruleset_promises_on_mutated_strings"] += r["promises_beyond_emitted_sample"]
+        out["shipped_ruleset_undecided"] += r["undecided"]
+        if r["problem"]:
+            out["violations"].append({"seed": base_seed, "tape": [], "violation": {
+                "property": "C13", "kind": "shipped_ruleset:" + r["problem"][0], "key": None,
+                "detail": dict(r["problem"][1], ruleset=r["name"])}, "case": None})
+    return out
